@@ -292,6 +292,7 @@ def run_attack(spec):
         if isinstance(p.factory, connector_mod.InboundConnectionFactory) and p.factory._connector._manager is dp.manager(victim):
             port = pn
     fed = 0
+    first_len = None
     if not relay_attack and port is not None:
         role = dp.role(victim)
         mine = connector_mod.PROLOGUE_FOLLOWER if role is LEADER else connector_mod.PROLOGUE_LEADER
@@ -330,11 +331,33 @@ def run_attack(spec):
             script = [mine + framed(rng.randbytes(48)), framed(rng.randbytes(20))]
         else:
             script = [mine + framed(rng.randbytes(48)) + framed(rng.randbytes(60)) + rng.randbytes(30)]
+        first_len = len(script[0])
         a = Attacker(script)
         f = protocol.ClientFactory()
         f.buildProtocol = lambda addr: a
         attackers.append(a)
         world.reactor.connectTCP("10.0.7.7", port, f)
+    # when was the complete offending unit fed to the victim, and when did the victim hang up?
+    timing = {}
+    single_unit = attack in ("wrong-prologue", "extended-prologue", "other-role-prologue", "random-handshake",
+                             "record-before-kcm", "garbage-after-handshake")
+    unit_len = None
+    if attackers and not relay_attack and single_unit:
+        unit_len = first_len
+
+    def hook():
+        if unit_len is None:
+            return
+        for link in world.reactor.links:
+            for e in link.ends:
+                vp = unwrap(e.protocol)
+                if isinstance(vp, conn_mod.DilatedConnectionProtocol) and isinstance(unwrap(link.ends[1 - e.end].protocol), Attacker):
+                    t = timing.setdefault(link.id, {"fed": None, "dropped": None})
+                    if t["fed"] is None and e.rx_total >= unit_len:
+                        t["fed"] = world.step
+                    if t["dropped"] is None and (e.lose_calls or not e.connected):
+                        t["dropped"] = world.step
+    sch.hook = hook
     sch.run(3000, until=lambda: dp.both_connected() and all(x.lost for x in attackers))
     sch.drain(100.0, 8000, until=lambda: all(x.lost for x in attackers) and dp.both_connected())
     viol = []
@@ -358,6 +381,12 @@ def run_attack(spec):
                     viol.append({"key": "C12/attack/unkeyed-input-surfaced/" + attack, "msg": "%s reached connector/manager from an attacker's connection" % surfaced[:3], "witness": wit})
                 if complete_unit and e.connected and attack not in ("oversized-frame",):
                     viol.append({"key": "C12/attack/not-dropped/" + attack, "msg": "the victim kept an attacker's connection open after a complete bad %s" % attack, "witness": wit})
+    sch.hook = None
+    for lid, t in timing.items():
+        if t["fed"] is not None and (t["dropped"] is None or t["dropped"] > t["fed"] + 1):
+            viol.append({"key": "C12/attack/not-dropped-at-once/" + attack,
+                         "msg": "the complete bad %s was fed to the victim at step %s; it hung up at step %s" % (attack, t["fed"], t["dropped"]),
+                         "witness": {"spec": spec, "timing": t, "victim_role": str(dp.role(victim))}})
     if not dp.both_connected() and not relay_attack:
         viol.append({"key": "C12/attack/honest-connection-prevented", "msg": "after the attack the honest peers are %s/%s" % (dp.mstate("A"), dp.mstate("B")),
                      "witness": {"spec": spec}})
